@@ -57,7 +57,7 @@ def gen_task(rng, k):
         else:
             steps.append("(let loop ((i 0) (acc 1)) (if (= i %d) (modulo acc 1000003) (loop (+ i 1) (* acc (+ i shared-name)))))" % rng.range(20, 300))
     steps.append("(list shared-name (thing-a (make-thing 'done)) (tag 'end))")
-    return {"heap": rng.choice([0, 0, 512 * 1024, 1024 * 1024, 8 * 1024 * 1024]), "yield_every": rng.choice([1, 7, 50, 400, 5000]),
+    return {"heap": rng.choice([0, 0, 512 * 1024, 1024 * 1024, 8 * 1024 * 1024, 700001, 1000008]), "yield_every": rng.choice([1, 7, 50, 400, 5000]),
             "gc_p1024": rng.choice([0, 1, 4]), "gc_seed": rng.below(1 << 30), "imports": libs, "steps": steps}
 
 
